@@ -172,9 +172,15 @@ def dependency_diamond_program(core: bool, variant: int) -> G.Program:
         return G.FieldSpec(name, base if n is None else f"{base}[{n}]", base, n, None if n is None else str(n))
 
     bp = "geo/parts.yaml"
-    path_fields = [F("first", "SEGMENT"), F("origin", "POINT")] if variant == 0 else [F("origin", "POINT"), F("first", "SEGMENT"), F("more", "SEGMENT", 2)]
+    # (five distinct not-yet-emitted types behind the definition that is pulled forward: an emission order that followed a hash
+    # order would differ between two processes in 119 of 120 cases)
+    path_fields = ([F("first", "SEGMENT"), F("origin", "POINT")] if variant == 0 else [F("origin", "POINT"), F("first", "SEGMENT"), F("more", "SEGMENT", 2)]) \
+        + [F("box", "BOX"), F("m", "MARK"), F("s", "SPAN")]
     b = G.FileSpec(path=bp, defs=[
         G.Def(kind="struct", name="POINT", file=bp, fields=[F("x", "double"), F("y", "double")]),
+        G.Def(kind="struct", name="MARK", file=bp, fields=[F("id", "int32"), F("flags", "int32")]),
+        G.Def(kind="struct", name="SPAN", file=bp, fields=[F("a", "MARK"), F("b", "MARK")]),
+        G.Def(kind="struct", name="BOX", file=bp, fields=[F("lo", "POINT"), F("hi", "POINT")]),
         G.Def(kind="struct", name="SEGMENT", file=bp, fields=[F("a", "POINT"), F("b", "POINT")]),
         G.Def(kind="struct", name="PATH", file=bp, fields=path_fields),
         G.Def(kind="message", name="WAYPOINT", file=bp, id=4420, fields=[F("at", "POINT"), F("leg", "SEGMENT")]),
@@ -216,6 +222,28 @@ def later_type_behind_alias_program(variant: int) -> G.Program:
                 "at": "TRACK", "name": "Vec3", "legal_identifiers": True}
     q._files = {s_.path: G.render_file(s_) for s_ in q.specs}
     return q
+
+
+def import_diamond_program(core: bool) -> G.Program:
+    """An import diamond across directories in which the second importer lists a FURTHER relative import after the file that
+    was already read: root imports common/types.yaml and devices/dev.yaml; dev.yaml imports ../common/types.yaml (skipped: read
+    already) and then extra.yaml, which lives next to dev.yaml."""
+    def F(name, base, n=None):
+        return G.FieldSpec(name, base if n is None else f"{base}[{n}]", base, n, None if n is None else str(n))
+
+    tp, dp, ep, rp = "common/types.yaml", "devices/dev.yaml", "devices/extra.yaml", "rig.yaml"
+    t = G.FileSpec(path=tp, defs=[G.Def(kind="struct", name="STAMP", file=tp, fields=[F("sec", "int32"), F("nsec", "int32")])])
+    e = G.FileSpec(path=ep, defs=[G.Def(kind="struct", name="GAIN", file=ep, fields=[F("g", "double"), F("ofs", "double")])])
+    d = G.FileSpec(path=dp, imports=[["../common/types.yaml", tp], ["extra.yaml", ep]], defs=[
+        G.Def(kind="message", name="DEV_STATE", file=dp, id=4440, fields=[F("at", "STAMP"), F("gain", "GAIN"), F("code", "int32"), F("pad", "int32")])])
+    r = G.FileSpec(path=rp, imports=[["common/types.yaml", tp], ["devices/dev.yaml", dp]], defs=[
+        G.Def(kind="message", name="RIG_STATE", file=rp, id=4441, fields=[F("at", "STAMP"), F("devs", "DEV_STATE", 2)])])
+    p = G.Program([t, e, d, r], rp, {"auto_pad": True, "validate_alignment": True, "import_coredefs": core}, "diamond",
+                  {"covering", "import-diamond", "repeated-import", "struct-array"})
+    probs = p.problems()
+    if probs:
+        raise HarnessError(f"import diamond program is ill-formed: {probs[:2]}")
+    return p
 
 
 def eval_const(text, env):
@@ -856,7 +884,8 @@ def shard(seed, n, idx, quick):
         one(substring_program(idx % 2 == 0), "covering-family")
         one(alias_chain_program(idx % 4 < 2, idx % 2), "covering-family")
         one(dependency_diamond_program(idx % 4 >= 2, idx % 2), "covering-family")
-        res.evaluations += 3
+        one(import_diamond_program(idx % 2 == 1), "covering-family")
+        res.evaluations += 4
         # every accepted way of calling a definition like a definition of another namespace (core names with the core imported), and every
         # text of the generator's string vocabulary (a quarter per shard): line breaks, lines that look like YAML, colons glued to text ...
         if idx % 4 < 2:
